@@ -21,6 +21,7 @@ FAMILIES = {
     "inlineA": {"quick": 600, "thorough": 12000},   # C20: handle operations executed INSIDE the read / write / flush callbacks of the connection task (parked handles), real client <-> real server
     "conformSend": {"quick": 40, "thorough": 1500},
     "conformStreams": {"quick": 150, "thorough": 3000},  # TLC simulation runs of MC_Streams (stream store / counters, server role) replayed on the real server
+    "conformConn": {"quick": 400, "thorough": 6000},   # TLC simulation runs of MC_Conn (SETTINGS / PING / GOAWAY / shutdown machinery, both roles) replayed on the real library
     "conformRecv": {"quick": 80, "thorough": 3000},  # TLC simulation runs of MC_Recv replayed on the real server (byte-exact)  # TLC simulation runs of MC_Send (x ~3 behaviours each) replayed on the real client
 }
 
@@ -37,6 +38,15 @@ RECV_SLICE = {"module": "MC_Recv", "cfg_quick": "MC_Recv_quick.cfg", "cfg_thorou
 STREAMS_SLICE = {"module": "MC_Streams", "cfg_quick": "MC_Streams_quick.cfg", "cfg_thorough": "MC_Streams_thorough.cfg",
                  "constants": "2 remote streams, MaxConc=ResetMax=PendingAcceptResetMax=ErrorResetMax=1, 2 extra peer frames (HEADERS/malformed HEADERS/DATA/RST_STREAM), every order of accept / send_response / send_data / send_reset / handle drops / pop_frame (writes may be delayed arbitrarily) / reset expiry / EOF / connection drop",
                  "timeout_quick": 900, "timeout_thorough": 3000, "coverage": False, "workers": 6}
+
+CONN_SLICES = [
+    {"module": "MC_Conn", "cfg_quick": "MC_Conn_quick.cfg", "cfg_thorough": "MC_Conn_thorough.cfg", "workers": 6, "heap": "10g",
+     "constants": "server role: one whole Connection::poll per step, environment between polls; budgets peer 3 / app 2 / block 1 (thorough: peer 4): SETTINGS / ACK / PING / PING ACK (user, shutdown, stray) / GOAWAY / new stream / stream end / EOF, set_initial_window_size, user ping, graceful and abrupt shutdown, codec full, socket blocked",
+     "timeout_quick": 1200, "timeout_thorough": 3000, "coverage": False},
+    {"module": "MC_Conn", "cfg_quick": "MC_Conn_client_quick.cfg", "cfg_thorough": "MC_Conn_client_thorough.cfg", "workers": 6, "heap": "10g",
+     "constants": "client role, same budgets; idle close when the last handle and stream are gone",
+     "timeout_quick": 1200, "timeout_thorough": 3000, "coverage": False},
+]
 
 PLAN = {
     "C01": {"rules": ["C01."], "families": WIRE_AB, "slices": [], "level": "exploration",
@@ -57,9 +67,10 @@ PLAN = {
     "C11": {"engine": True, "rules": ["C11."], "level": "model_checking"},
     "C12": {"engine": True, "rules": ["C12."], "level": "model_checking"},
     "C13": {"engine": True, "rules": ["C13."], "level": "model_checking"},
-    "C14": {"rules": ["C14.", "C12.out_size"], "families": WIRE_AB, "slices": [], "level": "exploration",
+    "C14": {"rules": ["C14.", "C12.out_size"], "families": WIRE_AB + ["conformConn"], "slices": CONN_SLICES, "level": "model_checking",
             "must_hit": ["C14.settings_ack", "C14.pong", "C14.all_acked"]},
-    "C15": {"rules": ["C15."], "families": WIRE_AB, "slices": [], "level": "exploration", "must_hit": []},
+    "C15": {"rules": ["C15."], "families": WIRE_AB + ["conformConn"], "slices": CONN_SLICES, "level": "model_checking",
+            "must_hit": ["C15.no_request_after_goaway", "C15.conn_result", "C15.graceful_completes"]},
     "C16": {"rules": ["C16."], "families": WIRE_AB + ["conformSend"], "slices": [SEND_SLICE], "level": "model_checking", "must_hit": ["C16.nonzero", "C16.stream_bound"]},
     "C18": {"rules": ["C18."], "families": WIRE_AB + ["conformStreams"], "slices": [STREAMS_SLICE], "level": "model_checking",
             "must_hit": ["C18.store_bound", "C18.recv_buffer_bound", "C18.send_buffer_bound", "C18.quota_counters", "C18.continuation_bound", "C18.owed_replies_bound"]},
